@@ -176,6 +176,16 @@ pub fn replay(case: &J, cli: Option<&str>, idx: usize, thorough: bool) -> J {
             "percentile", "range", "any", "all", "len", "head", "tail", "slice", "concat", "dot", "unique", "sort", "sort_by", "reverse", "map", "reduce", "filter", "every", "some", "split", "join",
             "replace", "trim", "uppercase", "lowercase", "includes", "format", "typeof", "arity", "keys", "values", "entries", "group_by", "count_by", "flatten", "zip", "chunk", "to_string", "to_number",
             "to_bool", "convert", "ugt", "ult", "ugte", "ulte"];
+        // captured and literal whole numbers at and beyond the 64-bit integer range, in every position a value can be written
+        for def in ["big = 2 ^ 64\nfn = (x) => x / big", "big = 0 - 2 ^ 70\nfn = (x) => [x + big, big]", "l = [2 ^ 63, 2 ^ 53, 25!, 1e300, 123456789012345678, 0 - 2 ^ 63]\nfn = (x) => map(l, y => y / x)",
+                    "r = {m: 1e19, n: [9223372036854775807, 9223372036854775808, 18446744073709551616]}\nfn = (x) => [r.m / x, r.n]", "fn = (x) => x / 18446744073709551616 + 1e19 / 1e18"] {
+            let s = Session::new();
+            for line in def.lines() { let _ = s.eval(line); }
+            let tuples: Vec<Vec<String>> = ["1", "2 ^ 64", "1e19", "3"].iter().map(|t| vec![t.to_string()]).collect();
+            let p = round_trip(&s, "fn", &tuples, None, None);
+            evals += 3 * tuples.len() as u64;
+            for pr in p.problems { mism.push(json!({"class": "big whole numbers", "src": def.replace('\n', " ; "), "problem": pr})); }
+        }
         for n in NAMES {
             for def in [format!("fn = (...xs) => {n}(...xs)"), format!("gn = {n}\nfn = (...xs) => gn(...xs)"), format!("gn = {{k: [{n}]}}\nfn = (...xs) => gn.k[0](...xs)")] {
                 let s = Session::new();
